@@ -250,6 +250,15 @@ func (o *oracle) after(line, res string, pre, st *mstate, kc kase, all bool) boo
 	if own("C33") && len(st.H) > 0 && (replay || o.chance(6, 100, false)) {
 		o.rebuildAndRename(st, kc)
 	}
+	if own("C31") && (replay || o.chance(4, 100, false)) {
+		o.conflictingRevert(st, kc)
+	}
+	if own("C32") && len(st.H) > 0 && (replay || o.chance(5, 100, false)) {
+		o.renameAndRetype(st, kc)
+	}
+	if own("C34") && len(st.H) > 0 && (replay || o.chance(5, 100, false)) {
+		o.untrackedNameCollision(st, kc)
+	}
 	_ = weight
 
 	// ---------------- C34
@@ -1129,6 +1138,235 @@ func (o *oracle) rebuildAndRename(st *mstate, kc kase) {
 		}
 		if at, err := im.readTable(head, t.Name); err != nil || showTable(at) != showTable(t) {
 			o.rep.Violate("C33/as-of/renamed-table", fmt.Sprintf("AS OF the commit before the rename no longer returns table %s", t.Name), kc)
+		}
+	})
+}
+
+// ---------------------------------------------------------------- model-free side trips (round 2)
+
+// rawRoot reads every user table of a revision without assuming the model's table family:
+// SHOW CREATE TABLE text and the rows in primary-key order, rendered canonically.
+func (im *impl) rawRoot(rev string) (map[string][2]string, error) {
+	names, err := im.tableNames(rev)
+	if err != nil {
+		return nil, err
+	}
+	out := map[string][2]string{}
+	for _, n := range names {
+		cr := im.q(fmt.Sprintf("show create table `%s` as of '%s'", n, rev))
+		if cr.Err != nil {
+			return nil, cr.Err
+		}
+		r := im.q(fmt.Sprintf("select * from `%s` as of '%s'", n, rev))
+		if r.Err != nil {
+			return nil, r.Err
+		}
+		out[n] = [2]string{unq(cr.Rows[0][1]), strings.Join(r.Sorted(), ";")}
+	}
+	return out, nil
+}
+
+func rawEq(a, b map[string][2]string) (bool, string) {
+	if len(a) != len(b) {
+		return false, fmt.Sprintf("table sets differ (%d vs %d)", len(a), len(b))
+	}
+	for n, x := range a {
+		y, ok := b[n]
+		if !ok {
+			return false, "table " + n + " missing"
+		}
+		if x[0] != y[0] {
+			return false, fmt.Sprintf("SHOW CREATE TABLE %s differs: %q vs %q", n, x[0], y[0])
+		}
+		if x[1] != y[1] {
+			return false, fmt.Sprintf("rows of %s differ: %s vs %s", n, x[1], y[1])
+		}
+	}
+	return true, ""
+}
+
+func (im *impl) headHash() string {
+	r := im.q("select hashof('HEAD')")
+	if r.Err != nil || len(r.Rows) == 0 {
+		return ""
+	}
+	return unq(r.Rows[0][0])
+}
+
+// conflictingRevert (C31): three commits editing one cell, then a revert of the middle one with
+// conflicts allowed.  The conflict artifacts must show base = the reverted commit's row, ours = HEAD's,
+// theirs = the parent's; resolving with --theirs and continuing must leave the parent's value.
+func (o *oracle) conflictingRevert(st *mstate, kc kase) {
+	im := o.im
+	head := im.hashes[st.branches[st.cur]]
+	v1, v2, v3 := o.r.Range(1, 9), o.r.Range(10, 19), o.r.Range(20, 29)
+	o.onTemp(st.cur, head, func(string) {
+		setup := []string{
+			"create table zz_c (pk int primary key, c int, d int)",
+			fmt.Sprintf("insert into zz_c values (1,%d,0),(2,5,5)", v1),
+			"call dolt_commit('-Am','zz p')",
+			fmt.Sprintf("update zz_c set c=%d where pk=1", v2),
+			"call dolt_commit('-am','zz c')",
+			fmt.Sprintf("update zz_c set c=%d, d=7 where pk=1", v3),
+			"call dolt_commit('-am','zz h')",
+		}
+		for _, q := range setup {
+			if r := im.q(q); r.Err != nil {
+				o.rep.Hit("oracle/C31/conflicting-revert-unavailable")
+				return
+			}
+		}
+		im.q("set @@dolt_allow_commit_conflicts = 1")
+		defer im.q("set @@dolt_allow_commit_conflicts = 0")
+		r := im.q("call dolt_revert('HEAD~1')")
+		if r.Err != nil || len(r.Rows) != 1 || r.Rows[0][1] == "0" {
+			o.rep.Violate("C31/revert-conflict/not-reported", fmt.Sprintf("reverting a commit whose cell HEAD changed again did not report a data conflict: %v %v", r.Rows, r.Err), kc)
+			im.q("call dolt_revert('--abort')")
+			return
+		}
+		o.rep.Hit("oracle/C31/conflicting-revert")
+		cr := im.q("select base_c, our_c, their_c, base_d, our_d, their_d from dolt_conflicts_zz_c where our_pk = 1 or base_pk = 1")
+		want := fmt.Sprintf("%d|%d|%d|0|7|0", v2, v3, v1)
+		if cr.Err != nil || len(cr.Rows) != 1 || strings.Join(cr.Rows[0], "|") != want {
+			o.rep.Violate("C31/revert-conflict/artifacts", fmt.Sprintf("revert of C under HEAD: dolt_conflicts_zz_c shows base|ours|theirs = %v (err %v), the definition (base = C, ours = HEAD, theirs = parent C) gives %s", cr.Rows, cr.Err, want), kc)
+			im.q("call dolt_revert('--abort')")
+			return
+		}
+		for _, q := range []string{"call dolt_conflicts_resolve('--theirs', 'zz_c')", "call dolt_add('zz_c')", "call dolt_revert('--continue')"} {
+			if x := im.q(q); x.Err != nil {
+				o.rep.Violate("C31/revert-conflict/continue", fmt.Sprintf("%s failed after resolving the revert conflict: %v", q, x.Err), kc)
+				im.q("call dolt_revert('--abort')")
+				return
+			}
+		}
+		fr := im.q("select c, d from zz_c where pk = 1")
+		if fr.Err != nil || len(fr.Rows) != 1 || fr.Rows[0][0] != strconv.Itoa(v1) {
+			o.rep.Violate("C31/revert-conflict/resolved-theirs", fmt.Sprintf("resolve --theirs + revert --continue left %v, the parent's value is %d", fr.Rows, v1), kc)
+		}
+	})
+}
+
+// renameAndRetype (C32): a column renamed in one commit and widened in the next; the patches of both
+// adjacent pairs and of the spanning pair must round-trip (data and SHOW CREATE TABLE).
+func (o *oracle) renameAndRetype(st *mstate, kc kase) {
+	im := o.im
+	head := im.hashes[st.branches[st.cur]]
+	hroot, err := im.readRoot(head)
+	if err != nil {
+		return
+	}
+	var t *table
+	var c col
+	for _, x := range hroot {
+		for _, cc := range x.Cols {
+			if cc.Name != "c0" && (t == nil || o.r.Chance(1, 2)) {
+				t, c = x, cc
+			}
+		}
+	}
+	if t == nil {
+		return
+	}
+	newTy, big := "varchar(100)", "'a value that needs more than twenty characters'"
+	if c.Ty == "int" {
+		newTy, big = "bigint", "123456789012"
+	}
+	o.ntmp++
+	t2 := fmt.Sprintf("zz_rt%d", o.ntmp)
+	o.onTemp(st.cur, head, func(t1 string) {
+		var hs []string
+		steps := [][]string{
+			{fmt.Sprintf("alter table `%s` rename column `%s` to `zz_r`", t.Name, c.Name), "call dolt_commit('-Am','zz rename')"},
+			{fmt.Sprintf("alter table `%s` modify column `zz_r` %s", t.Name, newTy),
+				fmt.Sprintf("insert into `%s` (pk, zz_r) values (77, %s)", t.Name, big), "call dolt_commit('-Am','zz widen')"},
+		}
+		for _, ss := range steps {
+			for _, q := range ss {
+				if r := im.q(q); r.Err != nil {
+					o.rep.Hit("oracle/C32/rename-retype-unavailable")
+					return
+				}
+			}
+			hs = append(hs, im.headHash())
+		}
+		o.rep.Hit("oracle/C32/rename-retype")
+		for _, pair := range [][2]string{{head, hs[0]}, {hs[0], hs[1]}, {head, hs[1]}} {
+			pr := im.q(fmt.Sprintf("select statement from dolt_patch('%s','%s') order by statement_order", pair[0], pair[1]))
+			if pr.Err != nil {
+				o.rep.Violate("C32/dolt_patch/error", fmt.Sprintf("dolt_patch across a column rename / retype failed: %v", pr.Err), kc)
+				return
+			}
+			want, err := im.rawRoot(pair[1])
+			if err != nil {
+				return
+			}
+			if r := im.q(fmt.Sprintf("call dolt_checkout('-b', '%s', '%s')", t2, pair[0])); r.Err != nil {
+				return
+			}
+			failed := ""
+			for _, row := range pr.Rows {
+				if x := im.q(unq(row[0])); x.Err != nil {
+					failed = fmt.Sprintf("%q: %v", unq(row[0]), x.Err)
+					break
+				}
+			}
+			got, gerr := im.rawRoot("WORKING")
+			im.q("call dolt_reset('--hard')")
+			im.q(fmt.Sprintf("call dolt_checkout('%s')", t1))
+			im.q(fmt.Sprintf("call dolt_branch('-D', '%s')", t2))
+			if failed != "" {
+				o.rep.Violate("C32/patch-roundtrip/rename-retype", "a statement of dolt_patch(a,b) across a renamed and retyped column fails on a checkout of a: "+failed, kc)
+				return
+			}
+			if gerr == nil {
+				if ok, why := rawEq(got, want); !ok {
+					o.rep.Violate("C32/patch-roundtrip/rename-retype", "executing dolt_patch(a,b) across a renamed and retyped column on a does not give b: "+why, kc)
+					return
+				}
+			}
+		}
+	})
+}
+
+// untrackedNameCollision (C34): a committed table is dropped, the drop is staged, and an unrelated table
+// of the same name (other key, other columns) is created — an untracked table.  `reset --hard` must give
+// back the target commit's table: working = staged = HEAD.
+func (o *oracle) untrackedNameCollision(st *mstate, kc kase) {
+	im := o.im
+	head := im.hashes[st.branches[st.cur]]
+	hroot, err := im.readRoot(head)
+	if err != nil || len(hroot) == 0 {
+		return
+	}
+	t := hx.Pick(o.r, hroot)
+	o.onTemp(st.cur, head, func(string) {
+		want, err := im.rawRoot(head)
+		if err != nil {
+			return
+		}
+		for _, q := range []string{
+			fmt.Sprintf("drop table `%s`", t.Name),
+			fmt.Sprintf("call dolt_add('%s')", t.Name),
+			fmt.Sprintf("create table `%s` (id bigint primary key, w text, z double)", t.Name),
+			fmt.Sprintf("insert into `%s` values (1, 'untracked', 1.5)", t.Name),
+			"call dolt_reset('--hard')",
+		} {
+			if r := im.q(q); r.Err != nil {
+				o.rep.Hit("oracle/C34/name-collision-unavailable")
+				return
+			}
+		}
+		o.rep.Hit("oracle/C34/name-collision")
+		got, err := im.rawRoot("WORKING")
+		if err != nil {
+			o.rep.Violate("C34/reset-hard/name-collision", fmt.Sprintf("after reset --hard the working root cannot be read: %v", err), kc)
+			return
+		}
+		if ok, why := rawEq(got, want); !ok {
+			o.rep.Violate("C34/reset-hard/name-collision", fmt.Sprintf("table %s was dropped (staged) and an unrelated untracked table of the same name created; after reset --hard the working root is not the target commit: %s", t.Name, why), kc)
+		}
+		if sr := im.q("select count(*) from dolt_status"); sr.Err == nil && sr.Rows[0][0] != "0" {
+			o.rep.Violate("C34/reset-hard/name-collision", "after reset --hard dolt_status is not empty", kc)
 		}
 	})
 }
